@@ -10,6 +10,8 @@
 #include <fcntl.h>
 #include <pthread.h>
 #include <sched.h>
+#include <semaphore.h>
+#include <time.h>
 #include <stdarg.h>
 #include <sys/stat.h>
 #include <sys/types.h>
@@ -53,6 +55,9 @@ static volatile int g_spurious_seen = 0;
 static volatile int g_slow_us = 0;      // the saver's open of the temporary takes this long (slow disk)
 static volatile int g_fail_from = 0;    // writes to the settings file / temporary fail (ENOSPC) from this one on
 static volatile int g_writes = 0;
+// holding the saver thread inside the k-th file system call of a save (burst operation B)
+static volatile int g_hold_at = 0, g_hold_count = 0;
+static sem_t g_reached, g_release;
 
 #define REAL(name) real_##name
 #define RESOLVE(name) do { if (!REAL(name)) *(void**)(&REAL(name)) = dlsym(RTLD_NEXT, #name); } while (0)
@@ -105,6 +110,11 @@ static void event(char kind) {
   g_calls.push_back(kind);
   g_imgs.push_back(snapshot());
   g_inside--;
+  if (g_hold_at && ++g_hold_count == g_hold_at) {
+    // the saver thread stays inside this call until the main thread has issued its next Save()s
+    sem_post(&g_reached);
+    sem_wait(&g_release);
+  }
 }
 static char which(const char *path) {
   if (!path || g_conf.empty()) return 0;
@@ -418,6 +428,61 @@ static string handle(const string &payload) {
       g_spurious = 0;
       g_slow_us = 0;
       out += "s" + n + "=" + g_store->Dump() + save_keys(n, r, r.imgs.back());
+    } else if (op == "B") {
+      // B:<k>:<which>,<key>,<value>/...  a burst of SetValue+Save() on store 1 ("port") or store 2
+      // ("other", same saver thread).  The saver thread is held inside the k-th file system call of
+      // the first save (store 1) until every Save() of the burst has been issued; then it is
+      // released and Synchronize() is called.  Both files must then hold the most recent save.
+      Store *store2 = static_cast<Store*>(g_factory->NewPreference("other"));
+      store2->Clear();
+      const string conf2 = g_dir + "/ola-other.conf";
+      g_inside++;
+      spit(conf2, false, "");
+      spit(conf2 + ".tmp", false, "");
+      g_inside--;
+      vector<string> items = vh::split(a[2], '/');
+      g_imgs.clear(); g_calls.clear(); fd_clear();
+      g_imgs.push_back(snapshot());
+      string scratch = g_dir + "/img";
+      std::set<string> allowed;
+      allowed.insert(dump_of_image(g_imgs[0], scratch));
+      g_hold_count = 0;
+      g_hold_at = vh::num(a[1]);
+      g_capture = true;
+      bool held = false, saved2 = false;
+      for (size_t j = 0; j < items.size(); j++) {
+        vector<string> it = vh::split(items[j], ',');
+        Store *st = it[0] == "2" ? store2 : g_store;
+        st->SetValue(bytes(it[1]), bytes(it[2]));
+        st->Save();
+        if (st == g_store) allowed.insert(g_store->Dump()); else saved2 = true;
+        if (j == 0 && g_hold_at) {
+          struct timespec ts;
+          clock_gettime(CLOCK_REALTIME, &ts);
+          ts.tv_sec += 3;
+          held = sem_timedwait(&g_reached, &ts) == 0;   // (times out only if the save has fewer calls than k)
+        }
+      }
+      g_hold_at = 0;
+      if (held) sem_post(&g_release);
+      g_saver->Synchronize();
+      g_inside++;
+      Img at_return = snapshot();
+      string file2;
+      bool has2 = slurp(conf2, &file2);
+      g_inside--;
+      g_capture = false;
+      bool atomic = true;
+      string images;
+      for (size_t j = 0; j < g_imgs.size(); j++) {
+        string d = load_image(g_imgs[j], scratch);
+        images += (j ? "|" : "") + d;
+        if (!allowed.count(d == "!" ? "-" : d)) atomic = false;
+      }
+      out += "s" + n + "=" + g_store->Dump() + ";y" + n + "=" + file_s(at_return.has_conf, at_return.conf) +
+             ";z" + n + "=" + file_s(has2, file2) + ";a" + n + "=" + (atomic ? "1" : "0") +
+             ";xc" + n + "=" + (g_calls.empty() ? "-" : g_calls) + (held ? "" : "!nohold") + ";xi" + n + "=" + images;
+      (void) saved2;
     } else if (op == "W") {
       // W:<k>  save during which every write from the k-th on fails with ENOSPC
       g_writes = 0;
@@ -494,6 +559,8 @@ int main(int argc, char **argv) {
   mkdir((g_dir + "/img").c_str(), 0755);
   g_conf = g_dir + "/ola-" + PREF_NAME + ".conf";
   g_tmp = g_conf + ".tmp";
+  sem_init(&g_reached, 0, 0);
+  sem_init(&g_release, 0, 0);
   g_saver = new ola::FilePreferenceSaverThread();
   g_saver->Start();
   int r = vh::run(argc, argv, handle, 6);
@@ -503,6 +570,8 @@ int main(int argc, char **argv) {
   real_unlink(g_conf.c_str());
   real_unlink(g_tmp.c_str());
   real_unlink((g_dir + "/img/ola-" + PREF_NAME + ".conf").c_str());
+  real_unlink((g_dir + "/ola-other.conf").c_str());
+  real_unlink((g_dir + "/ola-other.conf.tmp").c_str());
   rmdir((g_dir + "/img").c_str());
   rmdir(g_dir.c_str());
   return r;
